@@ -46,7 +46,7 @@ func main() {
 		posArgs = append(posArgs, a)
 	}
 	fs.Parse(append(flagArgs, posArgs...))
-	timeout := 10000
+	timeout := 20000
 	if *tier == "thorough" {
 		timeout = 60000
 	}
